@@ -40,11 +40,12 @@ def search(ctx, scale, hints):
                 if pyref.wf(c): fam.append([c] + pool.reps(c, ctx.rng))
         lines = []; meta = []
         # every byte-producing encoder / serialiser (every serialisation mode) on every representative
-        bops = ['el.enc', 'el.ser', 'el.ser_uncompressed'] if b == 'ark' else ['el.enc']
+        bops = (['el.enc', 'el.ser', 'el.ser_uncompressed', 'el.enc.from_elem', 'el.enc.from_ref', 'el.enc.arr_from'] if b == 'ark'
+                else ['el.enc', 'el.enc.from_elem', 'el.enc.from_ref', 'el.enc.arr_from'])
         for i, f in enumerate(fam):
             for c in f:
                 for k, op in enumerate(bops):
-                    if k and i >= 24: continue
+                    if k and i >= 40: continue
                     lines.append('%s %s' % (op, E(c))); meta.append((i, c))
         out = harness.run_script(b, lines)
         out = [o[3:] if o.startswith('OK ') else o for o in out]
